@@ -52,7 +52,7 @@ REAL = ['asyncssh SFTPServer + SFTPServerHandler on real files (server '
         '(download population); SSH transport of both endpoints']
 STUB = ['event loop + clock', 'TCP', 'executor', 'raw SFTP requester',
         'hostile SFTP/SCP source', 'filesystem access recorder']
-PROBES = ['pop_server', 'pop_get', 'pop_scp', 'dotdot_path', 'abs_path',
+PROBES = ['get_by_pattern', 'pop_server', 'pop_get', 'pop_scp', 'dotdot_path', 'abs_path',
           'symlink_created', 'rename_done', 'op_error_status',
           'outside_sentinels_checked', 'hostile_name_rejected']
 
@@ -106,7 +106,7 @@ def gen_plan(rng):
             if k in ('rename', 'posix_rename', 'link'):
                 ops.append([k, gen_path(rng), gen_path(rng)])
             elif k == 'symlink':
-                # [target, linkpath]
+                # [linkpath, target]
                 ops.append([k, gen_path(rng), gen_path(rng)])
             else:
                 ops.append([k, gen_path(rng)])
@@ -125,6 +125,27 @@ def gen_plan(rng):
                     [rng.choice(['rename', 'posix_rename']), link, dst],
                     [rng.choice(['open_w', 'open_r', 'listdir', 'stat',
                                  'mkdir', 'remove']), use]]
+            at = rng.below(len(ops) + 1)
+            ops[at:at] = tmpl
+
+        if rng.chance(25):
+            # a link to a directory higher up, then a second link created
+            # *through* it: the second one really lands where the first
+            # points, not where its path string says
+            deep = rng.choice(['sub/deep', 'a', 'sub/deep/new', 'sub'])
+            depth = deep.count('/') + 1
+            via = deep + '/' + rng.choice(['L', 'via'])
+            up = rng.choice(['/'.join(['..'] * depth), '/',
+                             '/'.join(['..'] * max(1, depth - 1))])
+            evil = rng.choice(['../outside/secret.txt', '../outside',
+                               '../f.txt', '../outside/dir/f.txt', '..'])
+            name = rng.choice(['y', 'esc'])
+            use = rng.choice([name, name + '/f.txt', name + '/new.txt',
+                              'sub/' + name, 'a/' + name])
+            tmpl = [['mkdir', deep], ['symlink', via, up],
+                    ['symlink', via + '/' + name, evil],
+                    [rng.choice(['open_r', 'open_w', 'stat', 'listdir',
+                                 'remove', 'mkdir']), use]]
             at = rng.below(len(ops) + 1)
             ops[at:at] = tmpl
 
@@ -150,6 +171,8 @@ def gen_plan(rng):
     plan['link_target'] = rng.choice(['@OUT@', '..', '../outside', '/',
                                       '@OUT@/dir', 'ok'])
     plan['preserve'] = rng.chance(30)
+    plan['glob'] = rng.choice([None, None, '/src/*', '/src/*/*', '/s*/*']) \
+        if pop == 'get' else None
     return plan
 
 
@@ -195,27 +218,84 @@ def _norm(p):
     return parts
 
 
-def history_sig(ops, default):
-    """Name the specific history behind a confinement failure: a symbolic
-       link with a relative target, created through the protocol, whose own
-       path (or a directory above it) was later renamed to a shallower
-       place, so that the unchanged relative target now resolves outside
-       the root."""
+def history_sig(ops, default, touched=None):
+    """Name the specific history behind a confinement failure.
 
-    links = []
+       symlink-renamed-upward: a symbolic link with a relative target,
+       created through the protocol, whose own path (or a directory above
+       it) was later renamed to a shallower place, so that the unchanged
+       relative target now resolves outside the root.
+
+       symlink-through-link: a symbolic link whose own path runs through an
+       earlier link, so that it really lands somewhere else than its path
+       string says.
+
+       `touched` (path components below the root of what was accessed)
+       narrows the verdict to links lying on that path."""
+
+    links = []     # [current path, renamed upward?, created through a link?]
+    verdicts = set()
+
+    def judge():
+        if touched is not None:
+            on_path = [l for l in links if touched[:len(l[0])] == l[0]]
+            # a link created through another one lands where that one
+            # points: its name then shows up below the place pointed to
+            on_path += [l for l in links if l[2] and l[0][-1:] == touched[:1]]
+        else:
+            on_path = links
+
+        if any(l[1] for l in on_path):
+            verdicts.add('symlink-renamed-upward')
+
+        if any(l[2] for l in on_path):
+            verdicts.add('symlink-through-link')
 
     for op in ops:
-        if op[0] == 'symlink' and not op[2].startswith('/') and \
-                '@' not in op[2]:
-            links.append(_norm(op[1]))
+        if op[0] == 'symlink' and '@' not in op[2]:
+            path = _norm(op[1])
+            through = any(path[:len(l[0])] == l[0] and len(path) > len(l[0])
+                          for l in links)
+            links.append([path, False, through and
+                          not op[2].startswith('/')])
         elif op[0] in ('rename', 'posix_rename'):
             src, dst = _norm(op[1]), _norm(op[2])
 
-            for link in links:
-                if link[:len(src)] == src and len(dst) < len(src):
-                    return 'symlink-renamed-upward'
+            if not src:
+                continue
+
+            for l in links:
+                if l[0][:len(src)] == src:
+                    l[0] = dst + l[0][len(src):]
+
+                    if len(dst) < len(src):
+                        l[1] = True
+
+        # (the failing access may have happened at any point of the history)
+        judge()
+
+    if 'symlink-renamed-upward' in verdicts:
+        return 'symlink-renamed-upward'
+
+    if 'symlink-through-link' in verdicts:
+        return 'symlink-through-link'
 
     return default
+
+
+def _below_root(path, root):
+    """Components of an accessed path below the root (None if elsewhere)"""
+
+    try:
+        p = os.fsdecode(path)
+        r = os.fsdecode(root)
+    except (TypeError, ValueError):
+        return None
+
+    if not p.startswith(r.rstrip('/') + '/'):
+        return None
+
+    return _norm(p[len(r):])
 
 
 def make_tree(base):
@@ -344,11 +424,12 @@ def run_server(world, plan, base):
                 elif k == 'readlink':
                     _, p = await raw.request(W.READLINK, p1)
                 elif k == 'symlink':
-                    # op = [symlink, target, linkpath]; OpenSSH v3 order is
-                    # (target, linkpath) reversed w.r.t. the draft
+                    # op = [symlink, linkpath, target] (draft order, which
+                    # asyncssh expects from a client that is not OpenSSH)
                     if ver >= 6:
+                        # LINK: new-link-path, existing-path, symlink flag
                         _, p = await raw.request(
-                            W.LINK, path_arg(op[2]) + p1 + bytes([1]))
+                            W.LINK, p1 + path_arg(op[2]) + bytes([1]))
                     else:
                         _, p = await raw.request(W.SYMLINK,
                                                  p1 + path_arg(op[2]))
@@ -397,7 +478,7 @@ def run_server(world, plan, base):
             'request sequence %r' %
             (p.decode('latin-1'), real.decode('latin-1').replace(
                 base, '<base>'), op, plan['ops']),
-            sig=history_sig(plan['ops'], op))
+            sig=history_sig(plan['ops'], op, _below_root(p, root)))
 
     sim.probes['outside_sentinels_checked'] += 1
 
@@ -430,6 +511,10 @@ def run_download(world, plan, base):
     # the destination the caller names is dest/got: its parent and its
     # sibling must stay as they are
     got = os.path.join(dest, 'got')
+
+    if plan.get('glob'):
+        # several matches need an existing directory to be copied into
+        os.makedirs(got)
 
     with open(os.path.join(dest, 'keep.txt'), 'wb') as f:
         f.write(b'keep\n')
@@ -557,9 +642,17 @@ def run_download(world, plan, base):
                 sftp = await conn.start_sftp_client()
                 fsaudit.start(got, allow=[os.environ.get('HOME', '/none'),
                                           '/etc/ssh'])
-                await sftp.get('/src', got,
-                               recurse=True, preserve=plan['preserve'],
-                               error_handler=lambda exc: None)
+                if plan.get('glob'):
+                    # names come from a pattern match over the hostile
+                    # listing instead of a walk from one named directory
+                    sim.probes['get_by_pattern'] += 1
+                    await sftp.mget(plan['glob'], got, recurse=True,
+                                    preserve=plan['preserve'],
+                                    error_handler=lambda exc: None)
+                else:
+                    await sftp.get('/src', got,
+                                   recurse=True, preserve=plan['preserve'],
+                                   error_handler=lambda exc: None)
             else:
                 fsaudit.start(got, allow=[os.environ.get('HOME', '/none'),
                                           '/etc/ssh'])
